@@ -1,5 +1,5 @@
 //@unit sv_onchain
-//@props C08 C12
+//@props C08
 // Contracts on SimpleValidator::{validate_onchain_tx, validate_beneficial_value}
 // (vls-core/src/policy/simple_validator.rs) and on Node::check_onchain_tx (vls-core/src/node.rs): the validator is asked
 // about the channels found by funding outpoint and the accepted fee is counted by the fee velocity control.
@@ -224,7 +224,7 @@ impl VxNodeOn {
         &&& vc_abs(f.fee_velocity_control) == vc_step(vc_abs(o.fee_velocity_control), now, (nb * 1000) as u64)
     }
 
-//@fn vls-core/src/node.rs :: impl Node :: check_onchain_tx props=C08,C12
+//@fn vls-core/src/node.rs :: impl Node :: check_onchain_tx props=C08
 //@sigsub /&self/ => &mut self
     requires
         opaths@.len() == tx.output@.len(),                       // indexing panics otherwise (abort)
